@@ -3,6 +3,7 @@ package props
 import (
 	"bufio"
 	"crypto/tls"
+	"crypto/x509"
 	"encoding/json"
 	"flag"
 	"fmt"
@@ -658,12 +659,12 @@ func (r *runner) step(e sEvent) {
 		}
 		mode := r.scen.Cfg["tls"]
 		switch {
-		case (mode == "tls" || mode == "mtls") && (kind == "valid" || kind == "nocert" || kind == "wrongca"):
+		case (mode == "tls" || mode == "mtls" || mode == "mtls-vc") && (kind == "valid" || kind == "nocert" || kind == "wrongca"):
 			cfg := r.tlsCli.Clone()
 			switch {
 			case kind == "wrongca":
 				cfg.Certificates = []tls.Certificate{r.wrongCert}
-			case kind == "valid" && mode == "mtls":
+			case kind == "valid" && (mode == "mtls" || mode == "mtls-vc"):
 				cfg.Certificates = []tls.Certificate{r.clientCert}
 			}
 			conn, err = lx.DialTLS(r.addr, cfg, 3*time.Second)
@@ -842,6 +843,20 @@ func (r *runner) step(e sEvent) {
 		r.mu.Lock()
 		r.stopRet[e.S] = ch
 		r.mu.Unlock()
+		if r.scen.Cfg["stop_storm"] == "1" {
+			// clients connecting at the very moment Stop is called (connections of the harness itself, not of the model:
+			// they are closed at once; only Stop's and Run's return are judged in these scenarios)
+			for g := 0; g < 4; g++ {
+				go func() {
+					for t0 := time.Now(); time.Since(t0) < 40*time.Millisecond; {
+						if c, err := net.DialTimeout("tcp", r.addr, 100*time.Millisecond); err == nil {
+							c.Close()
+						}
+					}
+				}()
+			}
+			time.Sleep(time.Duration(r.seed%7) * 300 * time.Microsecond)
+		}
 		r.emit(tEvent{Ev: "stop_call", S: e.S})
 		go func() {
 			_ = r.srv.Stop()
@@ -887,11 +902,26 @@ func runScenario(sc *sScenario, out *hx.Out, seed int64, tlsSrv, tlsCli *tls.Con
 			defer runtime.GOMAXPROCS(runtime.GOMAXPROCS(n))
 		}
 	}
-	if m := sc.Cfg["tls"]; m == "tls" || m == "starttls" || m == "mtls" {
+	if m := sc.Cfg["tls"]; m == "tls" || m == "starttls" || m == "mtls" || m == "mtls-vc" {
 		tm := getTLSMaterial()
 		r.tlsSrv, r.tlsCli, r.clientCert, r.wrongCert = tm.server, tm.client, tm.clientCert, tm.wrongCert
 		if m == "mtls" {
 			r.tlsSrv = tm.serverMTLS
+		}
+		if m == "mtls-vc" {
+			// the same requirement expressed the other way crypto/tls offers: any client certificate is asked for and the
+			// configuration's VerifyConnection callback verifies it against the CA
+			pool := tm.serverMTLS.ClientCAs
+			cfg := tm.server.Clone()
+			cfg.ClientAuth = tls.RequireAnyClientCert
+			cfg.VerifyConnection = func(cs tls.ConnectionState) error {
+				if len(cs.PeerCertificates) == 0 {
+					return fmt.Errorf("no client certificate")
+				}
+				_, err := cs.PeerCertificates[0].Verify(x509.VerifyOptions{Roots: pool, KeyUsages: []x509.ExtKeyUsage{x509.ExtKeyUsageClientAuth}})
+				return err
+			}
+			r.tlsSrv = cfg
 		}
 	}
 	r.ocHold = sc.Cfg["onclose_hold"] == "1"
@@ -964,6 +994,16 @@ func runScenario(sc *sScenario, out *hx.Out, seed int64, tlsSrv, tlsCli *tls.Con
 			}
 			defer func() { _ = other.Stop() }()
 		}
+	case "bad-2brackets":
+		r.runAddr = fmt.Sprintf("[[::1]]:%d", port)
+	case "bad-bracket-close2":
+		r.runAddr = fmt.Sprintf("[::1]]:%d", port)
+	case "bad-bracket-open2":
+		r.runAddr = fmt.Sprintf("[[::1]:%d", port)
+	case "bad-brackets-ipv4":
+		r.runAddr = fmt.Sprintf("[[127.0.0.1]]:%d", port)
+	case "bad-brackets-front":
+		r.runAddr = fmt.Sprintf("[]::1:%d", port)
 	case "bad-noport":
 		r.runAddr = "127.0.0.1"
 	case "bad-ipv4":
